@@ -76,7 +76,7 @@ def run_verus(path, workdir, rlimit=None, extra=()):
         out = json.loads(p.stdout) if p.stdout.strip() else {}
     except ValueError:
         out = {}
-    return dict(rc=p.returncode, diags=diags, other=other, out=out, wall=wall, cmd=' '.join(cmd))
+    return dict(rc=p.returncode, diags=diags, other=other, out=out, wall=wall, cmd=' '.join(cmd), path=path)
 
 
 def classify(G, res, reach=False):
@@ -94,8 +94,10 @@ def classify(G, res, reach=False):
                 continue
         if msg.startswith('aborting due to') or msg.startswith('For more information'):
             continue
-        prim = [s for s in d.get('spans', []) if s.get('is_primary')]
-        allspans = d.get('spans', [])
+        mine = os.path.basename(res.get('path', ''))
+        spans_here = [s for s in d.get('spans', []) if not mine or os.path.basename(s.get('file_name', '')) == mine]
+        prim = [s for s in spans_here if s.get('is_primary')]
+        allspans = spans_here
         low = msg.lower()
         is_verdict = any(v in low for v in VERDICTS) and not d.get('code')
         if any(u in low for u in UNDECIDED) and not is_verdict:
